@@ -129,16 +129,21 @@ static void run_one(std::ofstream &out, unsigned long seed, long x) {
 		size_t n = 1 + rnd(5);
 		TMCG_Stack<TMCG_Card> st; json types = json::array();
 		for (size_t c = 0; c < n; c++) { TMCG_Card cd(np, w); size_t t = rnd(T); tm.TMCG_CreateOpenCard(cd, ring, t); st.push(cd); types.push_back(t); }
-		size_t rounds = 1 + rnd(2);
+		size_t rounds = 1 + rnd(3);
+		// a player that shuffles more than once may generate into the secret object it used before
+		bool reuse = rnd(2) == 0;
+		TMCG_StackSecret<TMCG_CardSecret> kept;
 		for (size_t r = 0; r < rounds; r++) {
 			size_t who = rnd(np); bool cyc = (n >= 2) && rnd(3) == 0;
-			TMCG_StackSecret<TMCG_CardSecret> ss; TMCG_Stack<TMCG_Card> s2;
+			TMCG_StackSecret<TMCG_CardSecret> fresh; TMCG_Stack<TMCG_Card> s2;
+			TMCG_StackSecret<TMCG_CardSecret> &ss = reuse ? kept : fresh;
 			seam::clear_log(); seam::clear_script();
 			for (size_t k = 0; k + 1 < (cyc ? 2 : n); k++) seam::push_native_ul(rnd(1UL << 31));
 			size_t ret = tm.TMCG_CreateStackSecret(ss, cyc, ring, who, n);
 			json cc = coins(keys); { std::vector<long> m; for (size_t c = 0; c < n; c++) { std::vector<long> one = mods_for_secret(); m.insert(m.end(), one.begin(), one.end()); } reduce_draws(cc, m); }
 			json ssj = json::array(); for (size_t k = 0; k < ss.size(); k++) { json e = sec_j(ss[k].second); e["pi"] = ss[k].first; ssj.push_back(e); }
 			{ json e; e["e"] = "SSec"; e["i"] = who; e["n"] = n; e["cyclic"] = cyc; e["ret"] = ret; e["coins"] = cc; e["ss"] = ssj; out << e.dump() << "\n"; }
+			if (ss.size() != st.size()) break;      // (the SSec event above is not a behaviour of the specification; mixing would abort)
 			tm.TMCG_MixStack(st, s2, ss, ring, rnd(2));
 			json a = json::array(), b = json::array(); for (size_t k = 0; k < n; k++) { a.push_back(card_j(st[k])); b.push_back(card_j(s2[k])); }
 			{ json e; e["e"] = "Mix"; e["in"] = a; e["ss"] = ssj; e["out"] = b; out << e.dump() << "\n"; }
